@@ -122,7 +122,7 @@ class FunctionVerifier:
         shapes = self.param_shapes(eng0, mi, ci, fn)
         combos = [{}]
         for p, s in shapes.items():
-            combos = [dict(cb, **{p: x}) for cb in combos for x in expand_oneof(s)]
+            combos = [dict(cb, **{p: x}) for cb in combos for x in expand_oneof(Maker(eng0).resolve(s) if s.kind != 'class' else s)]
         self.info["input_cases"] = len(combos)
         for k, combo in enumerate(combos):
             eng = self.build_engine() if k else eng0
@@ -197,7 +197,7 @@ class FunctionVerifier:
                 env2.update({"result": result, "$old": old, "$oldenv": dict(spec_env)})
                 for exc_name, cond in c.raises.items():
                     if isinstance(cond, str):
-                        g = z3.Not(eng.spec_bool(s1, cond, spec_env, "prove", c.spec_module))
+                        g = z3.Not(eng.spec_bool(old._clone(pc=s1.pc), cond, spec_env, "assume", c.spec_module))
                         self.obligation(eng, mk, shapes, f"{c.qual}/raises:{exc_name}:must-raise", tag, s1.pc, g,
                                         "raises")
                 for label, text in c.ensures.items():
@@ -232,8 +232,8 @@ class FunctionVerifier:
                     self.obligation(eng, mk, shapes, f"{c.qual}/raises:none:{exc.name}", tag, s1.pc,
                                     z3.BoolVal(False), "raises")
                 else:
-                    g = eng.spec_bool(s1, allowed, spec_env, "prove", c.spec_module) if isinstance(allowed, str) \
-                        else z3.BoolVal(True)
+                    g = eng.spec_bool(old._clone(pc=s1.pc), allowed, spec_env, "prove", c.spec_module) \
+                        if isinstance(allowed, str) else z3.BoolVal(True)
                     self.obligation(eng, mk, shapes, f"{c.qual}/raises:{exc.name}:only-if", tag, s1.pc, g, "raises")
                     if c.frame_check:
                         self.frame(eng, mk, shapes, old, s1, env, tag, everything=True)
